@@ -3,6 +3,7 @@ import PcVerif.Ops.Caption
 import PcVerif.Model.DfxpTime
 import PcVerif.Model.SamiTime
 import PcVerif.Model.SamiWriter
+import PcVerif.Model.SamiStyle
 import PcVerif.Model.Langs
 namespace PcVerif.Ops
 open Proto
@@ -32,6 +33,10 @@ def encSync (s : SamiW.Sync) : String :=
 def samiWriterOps : List (String × Handler) := [
   ("sami.plan", fun a => match a with
     | [ls] => encList encSync (SamiW.plan (if ls = "[]" then [] else (ls.splitOn "|").map decTimes))
+    | _ => "bad-args"),
+  -- the stylesheet of a caption set without styles and layouts: one class per language
+  ("sami.stylesheet", fun a => match a with
+    | [ls] => encStr (SamiW.stylesheet (fun _ => []) (decStrs ls))
     | _ => "bad-args")
 ]
 end PcVerif.Ops
